@@ -22,6 +22,15 @@ CHECKS = {
  'C08': dict(
    text='bounded, solver-decided at the reader-event interface where the property\'s oracle is defined: for every script of <= N events a default reader can deliver (kinds, UTF-8 flags, attribute errors at any slot, 64-bit positions symbolic) z3 shows per path that the result is Err exactly for the first fault in stream order, with the right variant, the reader\'s error and position, Display text, and "no element" only for an initial parse; a native cross-check compares the real parser with the same pass over the real event stream of mutated byte strings',
    design='§4 C08', technique='symbolic execution over symbolic event scripts; independent stream-order pass as a z3 formula; per-path agreement decided by z3'),
+ 'C09': dict(
+   text='bounded, solver-decided: parser + renderer under both sort options on skeletons where several attributes/children first appear (or are demoted) in the same later occurrence or document; the first-appearance order of the document model is a z3 formula and per path z3 shows group order, in-group order, pre-order struct definitions, sorted order, and that switching the option changes nothing else',
+   design='§4 C09', technique='symbolic execution + first-appearance order oracle as z3 formula per path; native replay'),
+ 'C10': dict(
+   text='bounded in documents, unbounded in option values: derive, attribute prefix and text identifier are unconstrained symbolic strings (z3 sequence theory), sort symbolic; per path z3 shows derive verbatim iff non-empty, bindings = prefix+local / text identifier, rename iff binding differs from the identifier, and that two arbitrary option values and both presets give identical structs, identifiers, types and order',
+   design='§4 C10', technique='symbolic execution of the renderer with unconstrained symbolic option strings; clauses and 2-run product decided by z3 (string theory)'),
+ 'C16': dict(
+   text='bounded, solver-decided: every sequence of <= L public construction operations (kind, names, flags symbolic) is executed on the real Element code and compared after every step with an ordered-map model (uniqueness, lookup/removal by name, add-existing is a no-op, optional keeps the subtree); the final tree is rendered and the output read back (unique structs/fields, fields reflect the tree)',
+   design='§4 C16', technique='symbolic execution of operation sequences; stepwise comparison with an ordered-map model decided by z3; native replay through a register machine over the public API'),
  'C15': dict(
    text='bounded, solver-decided by two engines that must agree: Kani/CBMC verifies the compiled merge_necessity::<u8> for every list shape (LA,LB) in the stated set with all items and tags symbolic (unwinding assertions on, so within a shape the result holds for all values); rsym/z3 decides the same four clauses on the source with symbolic names for all shapes up to 3x3 (4x4 thorough)',
    design='§4 C15, §2.1', engine='rsym+kani', technique='Kani (CBMC/cadical) bounded model checking of the compiled generic function per list shape, cross-checked by source-level symbolic execution with z3',
